@@ -1008,3 +1008,74 @@ def translate_findnext(repo='/repo', tu=None):
             '   exit codes, pvFindOther is the Section variable findOther (see sel2coq.FnxFn) -- do not edit *)\n\n'
             'From Coq Require Import ZArith Bool List.\nFrom MomoCommon Require Import GenPrelude.\nLocal Open Scope Z_scope.\n\n'
             'Section Gen_FindNext_sec.\nVariable eqf : Z -> Z -> bool.\nVariable findOther : Z -> Z -> Z.\nVariable loop_fuel : nat.\n\n' + txt + '\n\nEnd Gen_FindNext_sec.\n')
+
+
+# ======================================================================================================================
+# very last round: HashSorter::pvFindOther (forward iterators), translated from the source
+class FoFn(FnxFn):
+    def pos(self, n):
+        t = strip_casts(n)
+        if t.get('kind') == 'DeclRefExpr' and t['referencedDecl']['name'] in ('begin', 'iter'):
+            return t['referencedDecl']['name']
+        return super().pos(n)
+
+    def e(self, n):
+        oi = opinfo(n)
+        if oi is not None and oi[0] == 'operator()' and oi[1] == 'equalFunc':
+            a, b = [self.deref_pos(x) for x in oi[2]]
+            return '(eqf (items %s) (items %s))' % (a, b)
+        return super().e(n)
+
+
+def translate_findother(repo='/repo', tu=None):
+    """Gen_FindOther.v: the comparer lambda of pvFindOther and pvFindOther itself = assert; pvExponentialSearch(begin + 1, count - 1,
+    comparer).iterator, where the search is SearchGlue.es_iterator = the GENERATED pvExponentialSearch / pvBinarySearch loops
+    (Gen_Searches.v) composed according to their exit codes."""
+    tu = tu or os.path.join(os.path.dirname(os.path.abspath(__file__)), 'inst_hs.cpp')
+    cfg = {'tu': tu, 'filter': 'HashSorter', 'includes': [os.path.join(repo, 'include')]}
+    objs = cxx2coq.load_objs(cxx2coq.dump_ast(cfg, repo))
+    ds = [d for d in _methods(objs, 'pvFindOther') if any(c.get('kind') == 'TemplateArgument' for c in d.get('inner', []))
+          and d['type']['qualType'].startswith('unsigned long *(unsigned long *,')]
+    if len(ds) != 1:
+        raise TranslationError('expected one forward-iterator instantiation of HashSorter::pvFindOther, found %d' % len(ds))
+    d = dict(ds[0]); d.pop('storageClass', None)
+    cfgf = {'name': 'Gen_FindOther', 'fields': {'items': 'array'}, 'functions': [], 'functor_params': {'pvFindOther': {'equalFunc': 'skip'}},
+            'ret_types': {'pvFindOther': 'unsigned long'}, 'pointers': True}
+    f = FoFn(cxx2coq.Ctx(cfgf), d, 'pvFindOther')
+    body = [c for c in d['inner'] if c.get('kind') == 'CompoundStmt'][0]
+    st = body.get('inner', [])
+    if len(st) != 3 or not cxx2coq.is_assert_stmt(st[0]) or st[1].get('kind') != 'DeclStmt' or st[2].get('kind') != 'ReturnStmt':
+        raise TranslationError('pvFindOther: body is no longer assert; comparer; return')
+    acond = f.e(cxx2coq.find_assert_cond(st[0]))
+    lambdas = []
+    def walk(n):
+        if isinstance(n, dict):
+            if n.get('kind') == 'LambdaExpr': lambdas.append(n)
+            for c in n.get('inner', []): walk(c)
+    walk(st[1])
+    if len(lambdas) != 1:
+        raise TranslationError('pvFindOther: comparer is not a single lambda')
+    ops = _methods([lambdas[0]], 'operator()')
+    lbody = [c for c in ops[0]['inner'] if c.get('kind') == 'CompoundStmt'][0]
+    if len(lbody.get('inner', [])) != 1 or lbody['inner'][0].get('kind') != 'ReturnStmt':
+        raise TranslationError('pvFindOther: comparer lambda is not a single return')
+    g = FoFn(cxx2coq.Ctx(cfgf), d, 'pvFindOther'); g.env['iter'] = ('ptr', 'unsigned long *')
+    cmp_txt = g.e(lbody['inner'][0]['inner'][0])
+    rv = strip_casts(st[2]['inner'][0])
+    if rv.get('kind') != 'MemberExpr' or rv.get('name') != 'iterator':
+        raise TranslationError('pvFindOther: result is not `.iterator` of the search result')
+    ci = callinfo(rv['inner'][0])
+    if ci is None or ci[0] != 'pvExponentialSearch' or len(ci[1]) != 3:
+        raise TranslationError('pvFindOther: does not return pvExponentialSearch(first, count, comparer).iterator')
+    c2 = strip_casts(ci[1][2])
+    if c2.get('kind') != 'DeclRefExpr' or c2['referencedDecl']['name'] != 'iterComparer':
+        raise TranslationError('pvFindOther: third argument of the search is not the comparer')
+    first = f.e(ci[1][0]); n = f.e(ci[1][1])
+    return ('(* GENERATED by props/C17/sel2coq.py (on tools/cxx2coq.py) from HashSorter.h: pvFindOther (forward iterators) -- do not edit *)\n\n'
+            'From Coq Require Import ZArith Bool List.\nFrom MomoCommon Require Import GenPrelude.\nFrom C17 Require Import SearchGlue.\n'
+            'Local Open Scope Z_scope.\n\nSection Gen_FindOther_sec.\nVariable eqf : Z -> Z -> bool.\nVariable loop_fuel : nat.\n\n'
+            '(* the comparer lambda [begin, &equalFunc] (Iterator iter) *)\nDefinition findOther_cmp (items : Z -> Z) (begin iter : Z) : Z :=\n%s.\n\n'
+            '(* MOMO_ASSERT(cond); return pvExponentialSearch(first, n, iterComparer).iterator; *)\n'
+            'Definition pvFindOther (items : Z -> Z) (begin count : Z) : outcome Z :=\nif %s then (\n'
+            'let first := %s in\nOk (es_iterator (fun i => findOther_cmp items begin (first + i)) loop_fuel first %s))\nelse Stuck.\n\nEnd Gen_FindOther_sec.\n'
+            % (cmp_txt, acond, first, n))
